@@ -52,6 +52,7 @@ func (x *Exec) freshResult(st *State, sig *types.Signature, hint string) Val {
 }
 
 func (x *Exec) countCall(st *State, name string, args []Val, c *ssa.CallCommon) {
+	x.lastCallName = name
 	k := "#call$" + name
 	st.ghost[k] = Add(st.ghostInt(k), One)
 	for i, a := range args {
@@ -61,7 +62,29 @@ func (x *Exec) countCall(st *State, name string, args []Val, c *ssa.CallCommon) 
 	}
 }
 
+// applyCall applies a call and records its results as ghost values (returned("name", i)).
 func (x *Exec) applyCall(st *State, site ssa.Instruction, c *ssa.CallCommon, fnv Val, args []Val, res ssa.Value) bool {
+	ok := x.applyCallInner(st, site, c, fnv, args, res)
+	if ok && res != nil {
+		if name := x.lastCallName; name != "" {
+			if rv, has := st.regs[res]; has {
+				if rv.Tup != nil {
+					for i, e := range rv.Tup {
+						if e.T != nil {
+							st.ghost[fmt.Sprintf("#ret$%s$%d", name, i)] = e.T
+						}
+					}
+				} else if rv.T != nil {
+					st.ghost[fmt.Sprintf("#ret$%s$0", name)] = rv.T
+				}
+			}
+		}
+	}
+	return ok
+}
+
+func (x *Exec) applyCallInner(st *State, site ssa.Instruction, c *ssa.CallCommon, fnv Val, args []Val, res ssa.Value) bool {
+	x.lastCallName = ""
 	if b, ok := c.Value.(*ssa.Builtin); ok {
 		return x.builtin(st, site, b, c, args, res)
 	}
@@ -167,7 +190,7 @@ func (x *Exec) applyCall(st *State, site ssa.Instruction, c *ssa.CallCommon, fnv
 
 // callEnv prepares the environment in which a callee's contract is read at a call site.
 func (x *Exec) callEnv(st *State, old *State, callee *ssa.Function, names []string, tys []types.Type, args []Val) *Env {
-	env := &Env{x: x, st: st, old: old, fn: callee, binds: map[string]specBinding{}, cells: false, mode: "call"}
+	env := &Env{x: x, st: st, old: old, fn: callee, binds: map[string]specBinding{}, cells: false, mode: "call", scope: x.callScope}
 	if callee != nil {
 		env.pkg = fnPkg(callee)
 	} else {
@@ -189,6 +212,8 @@ func (x *Exec) applyContract(st *State, site ssa.Instruction, callee *ssa.Functi
 		tys = append(tys, p.Type())
 	}
 	cname := relName(callee)
+	x.nscope++
+	x.callScope = fmt.Sprintf("#cs%d", x.nscope)
 	env := x.callEnv(st, st, callee, names, tys, args)
 	for i, rq := range ct.Requires {
 		t := env.eval(rq.Expr)
@@ -252,6 +277,8 @@ func (x *Exec) applyIfaceContract(st *State, site ssa.Instruction, c *ssa.CallCo
 		names = append(names, n)
 		tys = append(tys, sig.Params().At(i).Type())
 	}
+	x.nscope++
+	x.callScope = fmt.Sprintf("#cs%d", x.nscope)
 	env := x.callEnv(st, st, nil, names, tys, all)
 	for _, p := range x.P.Pkgs {
 		if p.PkgPath == ct.Pkg {
@@ -586,6 +613,13 @@ func (x *Exec) singleVararg(st *State, v ssa.Value) *Term {
 
 func (x *Exec) doReturn(st *State, r *ssa.Return) {
 	x.returns++
+	if x.full && x.returns <= 6 {
+		// vacuity guard: some path to a return must be feasible (an inconsistent assumption
+		// introduced by a contract would make every obligation after it trivially true)
+		x.obs = append(x.obs, &Obligation{Name: relName(x.fn) + "/reach", Fn: relName(x.fn), Kind: "reach", Pos: x.P.pos(r.Pos()),
+			Descr: "a return is reachable under the accumulated assumptions (vacuity guard)", Assume: append([]*Term{}, st.assume...), Goal: False,
+			Trail: strings.Join(st.trail, " ")})
+	}
 	st.results = nil
 	for _, v := range r.Results {
 		st.results = append(st.results, Val{T: x.term(st, x.val(st, v), v.Type())})
@@ -595,6 +629,9 @@ func (x *Exec) doReturn(st *State, r *ssa.Return) {
 	}
 	if x.ct != nil && x.full {
 		for i, en := range x.ct.Ensures {
+			if len(en.Props) > 0 && x.prop != "" && !hasProp(en.Props, x.prop) {
+				continue
+			}
 			t, ok := x.evalSpec(st, en.Expr, "post")
 			if !ok {
 				continue
@@ -704,10 +741,28 @@ func (x *Exec) checkFrame(st *State, r *ssa.Return) {
 			"every pre-existing object's "+k+" outside the modifies clause is unchanged")
 	}
 	if !allowedWild[ghSpawn] {
-		cur := st.ghostInt(ghSpawn)
-		ent := x.entry.ghostInt(ghSpawn)
-		if cur.Key() != ent.Key() {
-			x.oblige(st.clone(), "frame", ":spawn", Eq(cur, ent), r.Pos(), "no goroutine started (spawned() not in modifies)")
+		var gs []string
+		for g := range st.ghost {
+			if strings.HasPrefix(g, ghSpawn) {
+				gs = append(gs, g)
+			}
+		}
+		sort.Strings(gs)
+		anyNamed := false
+		for k := range allowedWild {
+			if strings.HasPrefix(k, ghSpawn+"$") {
+				anyNamed = true
+			}
+		}
+		for _, g := range gs {
+			if allowedWild[g] || (g == ghSpawn && anyNamed) {
+				continue
+			}
+			cur := st.ghost[g]
+			ent := x.entry.ghostInt(g)
+			if cur.Key() != ent.Key() {
+				x.oblige(st.clone(), "frame", ":"+g, Eq(cur, ent), r.Pos(), "no goroutine of this kind started ("+g+" not in modifies)")
+			}
 		}
 	}
 }
@@ -719,11 +774,20 @@ func (x *Exec) checkTypeInvs(st *State, r *ssa.Return) {
 	for a := range st.objOf {
 		allocs = append(allocs, a)
 	}
+	for c := range st.cells {
+		if a, ok := c.(*ssa.Alloc); ok && len(x.P.typeInvsOf(derefType(a.Type()))) > 0 {
+			allocs = append(allocs, a)
+		}
+	}
 	sort.Slice(allocs, func(i, j int) bool { return allocs[i].Pos() < allocs[j].Pos() })
 	for _, a := range allocs {
 		t := derefType(a.Type())
 		for _, ti := range x.P.typeInvsOf(t) {
-			env := &Env{x: x, st: st, old: st, fn: x.fn, binds: map[string]specBinding{"self": {Val{T: st.objOf[a]}, a.Type()}}, mode: "typeinv", pkg: x.P.pkgByPath(ti.Pkg)}
+			self := specBinding{Val{T: st.objOf[a]}, a.Type()}
+			if _, isObj := st.objOf[a]; !isObj {
+				self = specBinding{Val{T: st.cells[a]}, t}
+			}
+			env := &Env{x: x, st: st, old: st, fn: x.fn, binds: map[string]specBinding{"self": self}, mode: "typeinv", pkg: x.P.pkgByPath(ti.Pkg)}
 			g := env.eval(ti.Clause.Expr)
 			if env.err != nil {
 				x.specError(ti.Clause.Expr, env.err)
